@@ -290,6 +290,35 @@ Theorem C13_consumers : forall i l, Denotes i l ->
           else Err EType)).
 Proof. exact (fun i l D => conj (fun n s => consumer_split_at i l n D s) (fun k v s => consumer_group_by i l k v D s)). Qed.
 
+(* groupBy's aggregator protocol (the state machine [gagg_run] of Model/Streams.v, compared with GroupAggregator group
+   by group by the correspondence):
+   - an aggregator that accepts every value list gives [key, aggregator(values)] per group, fallback allowed or not;
+   - a successful call on a group that does NOT have exactly two values switches the old-style fallback off for good
+     (only a two-element value list can be mistaken for [key, values]);
+   - with the fallback off, a failing group raises its own error after the entries of the earlier groups;
+   - with a failure on record, the only error that can still surface is that first failure. *)
+Theorem C13_group_by_aggregator : forall a,
+  (forall gs allow, Forall (g_succeeds a) gs -> gagg_run a gs None allow = Some (map (g_entry a) gs, None)) /\
+  (forall k vs rest allow r, gapply a (VList false vs) = Ok r -> length vs <> 2 ->
+     gagg_run a ((k, vs) :: rest) None allow = gagg_run a ((k, vs) :: rest) None false) /\
+  (forall gs1 k vs rest f, Forall (g_succeeds a) gs1 -> gapply a (VList false vs) = Err f ->
+     gagg_run a (gs1 ++ (k, vs) :: rest) None false = Some (map (g_entry a) gs1, Some f)) /\
+  (forall f gs allow o e, gagg_run a gs (Some f) allow = Some (o, Some e) -> e = f).
+Proof. exact (fun a => conj (gagg_new_style a) (conj (gagg_flag_cleared a) (conj (gagg_no_fallback a) (gagg_first_failure a)))). Qed.
+
+(* [[1,a],[1,b],[1,c],[2,x]].groupBy($[0], $[1], [$[0], $[1]]): the first group (three values) is served in the new style
+   and ends the fallback, the second has no $[1]: IndexError.  With two values in the first group the old style stays
+   possible and the second group is served by it. *)
+Example C13_example_aggregator :
+  let s x := VStr [Z.of_nat x] in
+  gagg_run GIdxPair [(VInt 1, [s 97; s 98; s 99]); (VInt 2, [s 120])] None true
+    = Some ([VList false [VInt 1; VList false [s 97; s 98]]], Some EIndex) /\
+  gagg_run GIdxPair [(VInt 1, [s 97; s 98]); (VInt 2, [s 120])] None true
+    = Some ([VList false [VInt 1; VList false [s 97; s 98]]; VList false [VInt 2; VList false [s 120]]], None) /\
+  gagg_run GIdxPair [(VInt 1, [s 97; s 98]); (VInt 2, [s 120])] None false
+    = Some ([VList false [VInt 1; VList false [s 97; s 98]]], Some EIndex).
+Proof. vm_compute. repeat split. Qed.
+
 (* non-vacuity: the model at work on concrete inputs *)
 Example C13_example_order :
   order_by_l [(LMod 2, false); (LId, true)] [VInt 3; VInt 2; VInt 1; VInt 4; VInt 3] = [VInt 1; VInt 3; VInt 3; VInt 2; VInt 4].
@@ -305,3 +334,4 @@ Proof. vm_compute. split; reflexivity. Qed.
 Print Assumptions C13_order_by.
 Print Assumptions C13_group_by.
 Print Assumptions C13_stream_is_list.
+Print Assumptions C13_group_by_aggregator.
